@@ -25,7 +25,7 @@ LEVEL = "proof"
 MODULE = "Sqfs.Props.C05"
 REQUIRED = ["Sqfs.C05." + n for n in (
     "meta_seek_safe", "meta_read_safe", "meta_read_terminates", "meta_history_safe", "get_block_safe",
-    "get_fragment_safe", "stream_fill_safe", "data_read_safe", "read_table_safe", "read_inode_file_safe", "read_inode_slink_safe",
+    "get_fragment_safe", "stream_fill_safe", "data_read_safe", "read_table_safe", "read_table_terminates", "read_inode_file_safe", "read_inode_slink_safe",
     "read_inode_dir_ext_safe", "read_dir_ent_safe", "readdir_progress", "unpack_dir_index_safe",
     "resolve_compare_safe", "fill_dir_terminates", "dir_rec_terminates")]
 
